@@ -360,7 +360,7 @@ pub fn run(ctx: &Ctx) -> Report {
     Report {
         stats: st,
         rule: format!(
-            "all paths of 0..={} segments over the {}-symbol alphabet {:?} x trailing slash x {{standard,S3}}; every ASCII byte literal (3 contexts), every 2-byte UTF-8 char literal, every %XX in 4 hex-case spellings, every two-character escape %c1c2 over ASCII^2 (2 contexts), '%' followed by every pair over 10 units incl. 2/3/4-byte characters, 40 special paths; every path of <= {} segments behind a first segment padded to {} lengths (0..5000 bytes, every length 56..70 and 1020..1026) canonicalised in both modes back to back on one thread, in both orders; every ordered pair over 78 (path, mode) symbols of related paths (prefixes / extensions, escape-case and separator variants, 90-byte and 30-segment paths differing only at the end) back to back on one thread; first segments of {} lengths between 10 000 and 200 000 bytes (around 21 845 = 65 535/3, 32 768 and 65 536) made of plain, to-be-escaped and escaped bytes, followed by 10 dot-segment tails; 11 methods x 5 request targets ('*', '/', dot segments, bad escape, above root) signed over the reference normal form ('/' where there is none) on both carriers; plus end-to-end signing of all <=3-segment paths, each without a body, with a folded form body and with an empty folded form. states = distinct (mode, reference normal form | error class); non-trivial = input differs from its normal form or is refused",
+            "all paths of 0..={} segments over the {}-symbol alphabet {:?} x trailing slash x {{standard,S3}}; every ASCII byte literal (3 contexts), every 2-byte UTF-8 char literal, every %XX in 4 hex-case spellings, every two-character escape %c1c2 over ASCII^2 (2 contexts), '%' followed by every pair over 10 units incl. 2/3/4-byte characters, 40 special paths; every path of <= {} segments behind a first segment padded to {} lengths (0..5000 bytes, every length 56..70 and 1020..1026) canonicalised in both modes back to back on one thread, in both orders; every ordered pair over 78 (path, mode) symbols of related paths (prefixes / extensions, escape-case and separator variants, 90-byte and 30-segment paths differing only at the end) back to back on one thread; first segments of {} lengths between 10 000 and 200 000 bytes (around 21 845 = 65 535/3, 32 768 and 65 536) made of plain, to-be-escaped and escaped bytes, followed by 10 dot-segment tails; 11 methods x 5 request targets ('*', '/', dot segments, bad escape, above root) signed over the reference normal form ('/' where there is none) on both carriers; plus end-to-end signing of all <=3-segment paths, each without a body, with a folded form body and with an empty folded form; plus 8 paths whose normal form differs between the modes (or exists in one only) x both modes x the server configured for every AWS region code / pseudo-region (62) x every service signing name (70, the S3 family included) x carrier — the mode is what the caller configured, whatever the names mean to AWS. states = distinct (mode, reference normal form | error class); non-trivial = input differs from its normal form or is refused",
             max_segs, SEGMENTS.len(), SEGMENTS, short_segs, pad_lens.len(), big_lens.len()
         ),
         bounds: json!({"max_segments": max_segs, "alphabet": SEGMENTS.len(), "modes": 2}),
